@@ -22,6 +22,7 @@ import (
 	"errors"
 	"fmt"
 	"math/big"
+	"os"
 	"runtime"
 	"strconv"
 	"strings"
@@ -174,6 +175,10 @@ func vGenConfig(r *vRand, valid bool) *Config {
 			c.MemorySpikePercentage = lp - 1
 		}
 	}
+	if mode == 1 && r.Intn(3) == 0 {
+		// limit_mib unset: spike_limit_mib is not looked at by Validate nor by the percentage checker
+		c.MemorySpikeLimitMiB = []uint32{1, 5, 100, 4096, ^uint32(0)}[r.Intn(5)]
+	}
 	if valid {
 		return c
 	}
@@ -257,70 +262,84 @@ func vNew(c *Config, total vTotal, logger *zap.Logger) (ml *MemoryLimiter, outco
 
 // ---- CConfig ---------------------------------------------------------------------------------------
 func vConfigCases(out *vOut, r *vRand, n int) {
-	two64 := new(big.Int).Lsh(big.NewInt(1), 64)
 	for i := 0; i < n; i++ {
 		valid := r.Intn(100) < 62
 		c := vGenConfig(r, valid)
 		total := vGenTotal(r)
-		class := vValidateClass(c.Validate())
-		ml, outcome := vNew(c, total, zap.NewNop())
-		chk := "None"
-		if ml != nil {
-			ml.ticker.Stop()
-			chk = "(Some " + vPair(vU(ml.usageChecker.memAllocLimit), vU(ml.usageChecker.memSpikeLimit)) + ")"
+		vOneConfigCase(out, c, total)
+	}
+}
+
+func vOneConfigCase(out *vOut, c *Config, total vTotal) {
+	two64 := new(big.Int).Lsh(big.NewInt(1), 64)
+	class := vValidateClass(c.Validate())
+	ml, outcome := vNew(c, total, zap.NewNop())
+	chk := "None"
+	if ml != nil {
+		ml.ticker.Stop()
+		chk = "(Some " + vPair(vU(ml.usageChecker.memAllocLimit), vU(ml.usageChecker.memSpikeLimit)) + ")"
+	}
+	term := fmt.Sprintf("(CConfig %s %s %d %d %s)", vCfg(c), total, class, outcome, chk)
+	out.Case(outcome == 2, term)
+	out.Stat(fmt.Sprintf("config.validate_class_%d", class), 1)
+	out.Stat(fmt.Sprintf("config.new_outcome_%d", outcome), 1)
+	if c.MemoryLimitMiB != 0 {
+		out.Stat("config.mode_fixed", 1)
+	} else {
+		out.Stat("config.mode_percentage", 1)
+	}
+	// direct oracle: a validated configuration (percentage mode: 100*total < 2^64) gives
+	// spike <= limit, limit/spike equal to the unbounded-integer values, default spike = limit/5
+	{
+		okDoc := c.CheckInterval > 0 && c.MinGCIntervalWhenSoftLimited >= c.MinGCIntervalWhenHardLimited &&
+			(c.MemoryLimitMiB > 0 || c.MemoryLimitPercentage > 0) &&
+			c.MemoryLimitPercentage <= 100 && c.MemorySpikePercentage <= 100 &&
+			(c.MemoryLimitMiB == 0 || c.MemorySpikeLimitMiB < c.MemoryLimitMiB) &&
+			(c.MemoryLimitPercentage == 0 || c.MemorySpikePercentage < c.MemoryLimitPercentage)
+		if class != 0 && okDoc {
+			out.Oracle("validate-rejects-good-config", term, fmt.Sprintf("Validate() class %d for a configuration that obeys every documented rule", class))
 		}
-		term := fmt.Sprintf("(CConfig %s %s %d %d %s)", vCfg(c), total, class, outcome, chk)
-		out.Case(outcome == 2, term)
-		out.Stat(fmt.Sprintf("config.validate_class_%d", class), 1)
-		out.Stat(fmt.Sprintf("config.new_outcome_%d", outcome), 1)
+	}
+	if class == 0 {
+		// the documented rules, restated independently of Validate
+		okDoc := c.CheckInterval > 0 && c.MinGCIntervalWhenSoftLimited >= c.MinGCIntervalWhenHardLimited &&
+			(c.MemoryLimitMiB > 0 || c.MemoryLimitPercentage > 0) &&
+			c.MemoryLimitPercentage <= 100 && c.MemorySpikePercentage <= 100 &&
+			(c.MemoryLimitMiB == 0 || c.MemorySpikeLimitMiB < c.MemoryLimitMiB) &&
+			(c.MemoryLimitPercentage == 0 || c.MemorySpikePercentage < c.MemoryLimitPercentage)
+		if !okDoc {
+			out.Oracle("validate-accepts-bad-config", term, "Validate() = nil for a configuration that breaks a documented rule")
+		}
+		if outcome == 1 {
+			out.Oracle("validated-config-panics", term, "NewMemoryLimiter panicked on a validated configuration")
+		}
+		if outcome == 0 && (c.MemoryLimitMiB != 0 || total.ok) {
+			out.Oracle("validated-config-rejected", term, "NewMemoryLimiter failed although total memory is known")
+		}
+	}
+	if class == 0 && ml != nil {
+		lim, spike := new(big.Int), new(big.Int)
+		inScope := true
 		if c.MemoryLimitMiB != 0 {
-			out.Stat("config.mode_fixed", 1)
+			lim.Mul(big.NewInt(int64(c.MemoryLimitMiB)), big.NewInt(1<<20))
+			spike.Mul(big.NewInt(int64(c.MemorySpikeLimitMiB)), big.NewInt(1<<20))
 		} else {
-			out.Stat("config.mode_percentage", 1)
+			t := new(big.Int).SetUint64(total.v)
+			if new(big.Int).Mul(t, big.NewInt(100)).Cmp(two64) >= 0 {
+				inScope = false
+				out.Stat("config.percentage_total_beyond_2^64/100", 1)
+			}
+			lim.Div(new(big.Int).Mul(t, big.NewInt(int64(c.MemoryLimitPercentage))), big.NewInt(100))
+			spike.Div(new(big.Int).Mul(t, big.NewInt(int64(c.MemorySpikePercentage))), big.NewInt(100))
 		}
-		// direct oracle: a validated configuration (percentage mode: 100*total < 2^64) gives
-		// spike <= limit, limit/spike equal to the unbounded-integer values, default spike = limit/5
-		if class == 0 {
-			// the documented rules, restated independently of Validate
-			okDoc := c.CheckInterval > 0 && c.MinGCIntervalWhenSoftLimited >= c.MinGCIntervalWhenHardLimited &&
-				(c.MemoryLimitMiB > 0 || c.MemoryLimitPercentage > 0) &&
-				c.MemoryLimitPercentage <= 100 && c.MemorySpikePercentage <= 100 &&
-				(c.MemoryLimitMiB == 0 || c.MemorySpikeLimitMiB < c.MemoryLimitMiB) &&
-				(c.MemoryLimitPercentage == 0 || c.MemorySpikePercentage < c.MemoryLimitPercentage)
-			if !okDoc {
-				out.Oracle("validate-accepts-bad-config", term, "Validate() = nil for a configuration that breaks a documented rule")
-			}
-			if outcome == 1 {
-				out.Oracle("validated-config-panics", term, "NewMemoryLimiter panicked on a validated configuration")
-			}
-			if outcome == 0 && (c.MemoryLimitMiB != 0 || total.ok) {
-				out.Oracle("validated-config-rejected", term, "NewMemoryLimiter failed although total memory is known")
-			}
+		if spike.Sign() == 0 {
+			spike.Div(lim, big.NewInt(5))
+			out.Stat("config.default_spike", 1)
 		}
-		if class == 0 && ml != nil {
-			lim, spike := new(big.Int), new(big.Int)
-			inScope := true
-			if c.MemoryLimitMiB != 0 {
-				lim.Mul(big.NewInt(int64(c.MemoryLimitMiB)), big.NewInt(1<<20))
-				spike.Mul(big.NewInt(int64(c.MemorySpikeLimitMiB)), big.NewInt(1<<20))
-			} else {
-				t := new(big.Int).SetUint64(total.v)
-				if new(big.Int).Mul(t, big.NewInt(100)).Cmp(two64) >= 0 {
-					inScope = false
-					out.Stat("config.percentage_total_beyond_2^64/100", 1)
-				}
-				lim.Div(new(big.Int).Mul(t, big.NewInt(int64(c.MemoryLimitPercentage))), big.NewInt(100))
-				spike.Div(new(big.Int).Mul(t, big.NewInt(int64(c.MemorySpikePercentage))), big.NewInt(100))
-			}
-			if spike.Sign() == 0 {
-				spike.Div(lim, big.NewInt(5))
-				out.Stat("config.default_spike", 1)
-			}
-			if inScope {
-				gl, gs := new(big.Int).SetUint64(ml.usageChecker.memAllocLimit), new(big.Int).SetUint64(ml.usageChecker.memSpikeLimit)
-				if gl.Cmp(lim) != 0 || gs.Cmp(spike) != 0 || gs.Cmp(gl) > 0 {
-					out.Oracle("limits-wellformed", term, fmt.Sprintf("limit=%s spike=%s expected limit=%s spike=%s", gl, gs, lim, spike))
-				}
+		if inScope {
+			gl, gs := new(big.Int).SetUint64(ml.usageChecker.memAllocLimit), new(big.Int).SetUint64(ml.usageChecker.memSpikeLimit)
+			if gl.Cmp(lim) != 0 || gs.Cmp(spike) != 0 || gs.Cmp(gl) > 0 {
+				out.Oracle("limits-wellformed", term, fmt.Sprintf("limit=%s spike=%s expected limit=%s spike=%s", gl, gs, lim, spike))
 			}
 		}
 	}
@@ -1292,9 +1311,50 @@ func vWitnessReplay(out *vOut) {
 	}
 }
 
+// vFocus: the check driver found (coq/C18/Diff.v) an argument on which a function translated from the
+// current source differs from its specification twin; run the implementation on a history that uses it.
+//   VERIF_FOCUS = "soft:<limit MiB>,<spike MiB>,<reading>" | "cfg:<check>,<soft>,<hard>,<limit MiB>,<spike MiB>,<limit %>,<spike %>[,<total>]"
+func vFocus(out *vOut, focus string) {
+	kind, rest, _ := strings.Cut(focus, ":")
+	var v []int64
+	for _, f := range strings.Split(rest, ",") {
+		n, err := strconv.ParseInt(strings.TrimSpace(f), 10, 64)
+		if err != nil {
+			panic("verif: bad VERIF_FOCUS " + focus)
+		}
+		v = append(v, n)
+	}
+	switch kind {
+	case "soft":
+		c := &Config{CheckInterval: time.Hour, MinGCIntervalWhenSoftLimited: time.Hour, MinGCIntervalWhenHardLimited: time.Hour,
+			MemoryLimitMiB: uint32(v[0]), MemorySpikeLimitMiB: uint32(v[1])}
+		x := vNewRunner(out, c, vTotal{false, 0})
+		if x == nil {
+			out.Oracle("focus", focus, "no limiter")
+			return
+		}
+		x.step(uint64(v[2]), uint64(v[2]), int64(30*time.Second)) // oracle refuse-iff-soft inside
+		out.Case(true, x.term())
+	case "cfg":
+		c := &Config{CheckInterval: time.Duration(v[0]), MinGCIntervalWhenSoftLimited: time.Duration(v[1]), MinGCIntervalWhenHardLimited: time.Duration(v[2]),
+			MemoryLimitMiB: uint32(v[3]), MemorySpikeLimitMiB: uint32(v[4]), MemoryLimitPercentage: uint32(v[5]), MemorySpikePercentage: uint32(v[6])}
+		total := vTotal{true, 1 << 34}
+		if len(v) > 7 {
+			total.v = uint64(v[7])
+		}
+		vOneConfigCase(out, c, total)
+	default:
+		panic("verif: bad VERIF_FOCUS " + focus)
+	}
+}
+
 func TestVerifC18(t *testing.T) {
 	out := vOpen()
 	defer out.Close()
+	if f := os.Getenv("VERIF_FOCUS"); f != "" {
+		vFocus(out, f)
+		return
+	}
 	vWitnessReplay(out)
 	vDefaultConfigCase(out)
 	vConfigCases(out, vNewRand(1801), vBudget(350, 20))
